@@ -6,7 +6,8 @@
    representative of t that carries the pushed-down mode everywhere, `uniform m t` says t is
    already that representative (what checkTypeModalities guarantees). *)
 Require Import Grits.Base Grits.ModeDefs Grits.Modes Grits.STypes Grits.Print Grits.EqualWF.
-Require Import Grits.spec.TypeReader Grits.proofs.ReaderProofs Grits.proofs.LexProofs Grits.proofs.PrintProofs.
+Require Import Grits.Forms Grits.spec.TypeReader Grits.spec.FormReader Grits.proofs.ReaderProofs Grits.proofs.LexProofs Grits.proofs.PrintProofs
+               Grits.proofs.FormReaderProofs Grits.proofs.FormLexProofs.
 
 Theorem parse_print_type : forall t m,
   uniform m t = true -> syn_ok t = true -> modes_wf t = true -> rd_type m (lex_ty (print_type t)) = Some t.
@@ -25,6 +26,18 @@ Theorem print_injective_uniform : forall s t m,
   print_type s = print_type t -> s = t.
 Proof. exact PrintProofs.print_injective_uniform. Qed.
 
+(* terms: print_form is the model of Form.String(); a self-style term (every name is `self` or a plain
+   non-keyword identifier; String() prints neither polarities nor type annotations) prints to text
+   that the reference reader of spec/FormReader.v reads back as the same term *)
+Theorem parse_print_form : forall q, self_style q = true -> rd_form_all (lex_form (print_form q)) = Some q.
+Proof. exact FormLexProofs.parse_print_form. Qed.
+
+Theorem print_form_injective : forall p q,
+  self_style p = true -> self_style q = true -> print_form p = print_form q -> p = q.
+Proof. exact FormLexProofs.print_form_injective. Qed.
+
 Print Assumptions parse_print_type.
+Print Assumptions parse_print_form.
+Print Assumptions print_form_injective.
 Print Assumptions print_injective.
 Print Assumptions print_injective_uniform.
